@@ -720,6 +720,11 @@ var bodies = []struct{ src, class string }{
 	{". + .", "dup-elements"}, {"if type == \"array\" then . + . else . + 1 end", "dup-elements"}, {"[.[]?, .[]?]", "dup-elements"}, {"if type == \"object\" then {a: .a, b: .a} else . end", "dup-elements"},
 	{"if type == \"array\" then [.[], .[]] elif type == \"object\" then {a: .[keys[0]]?, b: .[keys[0]]?} else . + 1 end", "dup-elements"}, {"{a: .[0]?, b: .[0]?}", "dup-elements"}, {"if type == \"array\" then map(., .) else . end", "dup-elements"},
 	{"if type == \"number\" then . + 1 else . + . end", "dup-elements"}, {"if type == \"array\" then [.[0], .[0]] else . end", "dup-elements"},
+	// removing updates nested in the body (the outer update has removals pending meanwhile)
+	{"if type == \"number\" then empty else (.[]? |= empty) end", "nested-remove"}, {"(.[]? |= select(. != null))?", "nested-remove"}, {"map_values(select(type == \"number\"))?", "nested-remove"},
+	{"(.[]? |= (if type == \"number\" then empty else . end))?", "nested-remove"}, {"if type == \"number\" then empty else map_values(empty)? end", "nested-remove"}, {"(.a? |= empty)?", "nested-remove"},
+	{"if type == \"array\" then (.[] |= empty) elif type == \"number\" then empty else . end", "nested-remove"}, {"if . == null then empty else (.[]? |= (if . == null then empty else . end)) end", "nested-remove"},
+	{"walk(if . == null then empty else . end)?", "nested-remove"}, {"(.. |= (if . == null then empty else . end))?", "nested-remove"}, {"(first(.[]?) |= empty)?", "nested-remove"},
 	{"if type == \"array\" then .[1:] else . end", "slice-body"}, {"if type == \"array\" then . + [0] else . end", "grow-body"}, {"if type == \"object\" then . + {z: 1} else . end", "grow-body"},
 }
 
